@@ -145,7 +145,7 @@ def check_copies(ck):
         if not ok:
             continue
         n = np.linalg.solve(L.T, pts.T).T
-        if not np.allclose(n, np.rint(n), atol=1e-9) or len(pts) != abs(det3(S)):
+        if not np.allclose(n, np.rint(n), atol=1e-9, rtol=0) or len(pts) != abs(det3(S)):
             ck.violation("copies_general_lattice", SITE_COPIES, {"S": S.ravel().tolist(), "latvec": L.tolist()},
                          expected="|det S| primitive-lattice translates", got=n.tolist()[:4])
         ck.case(("L", tuple(S.ravel().tolist()), float(L[0, 0])))
@@ -209,7 +209,7 @@ def check_cell(ck):
             if not ok:
                 continue
             Ls = sup.lattice_vectors()
-            if not np.allclose(Ls, S @ Lp, atol=1e-10):
+            if not np.allclose(Ls, S @ Lp, atol=1e-10, rtol=0):
                 ck.violation("supercell_lattice", SITE_CELL, inp, expected=(S @ Lp).tolist(), got=Ls.tolist(), oracle="lattice = S . primitive lattice")
             if sup.natm != abs(dt) * cell.natm:
                 ck.violation("supercell_natm", SITE_CELL, inp, expected=abs(dt) * cell.natm, got=sup.natm, oracle="|det S| copies of each atom")
@@ -224,7 +224,7 @@ def check_cell(ck):
                     if cell.atom_symbol(ja) != sym:
                         continue
                     n = np.linalg.solve(Lp.T, pos[ia] - cell.atom_coords()[ja])
-                    if np.allclose(n, np.rint(n), atol=1e-8):
+                    if np.allclose(n, np.rint(n), atol=1e-8, rtol=0):
                         found = (ja, tuple(int(x) for x in np.rint(n)))
                         break
                 if found is None:
@@ -274,7 +274,7 @@ def check_twists(ck):
             nn = int(np.lcm.reduce(mesh))
             kappa = kpts @ np.linalg.inv(B)
             p = np.rint(kappa * nn)
-            if not np.allclose(kappa * nn, p, atol=1e-8):
+            if not np.allclose(kappa * nn, p, atol=1e-8, rtol=0):
                 continue
             p = p.astype(int)
             for S in Ss:
@@ -301,7 +301,7 @@ def check_twists(ck):
                 for t, ks in zip(out["twists"], kinds):
                     for i in ks:
                         m = (kpts[i] - t) @ As.T / (2 * np.pi)
-                        if not np.allclose(m, np.rint(m), atol=1e-7):
+                        if not np.allclose(m, np.rint(m), atol=1e-7, rtol=0):
                             ck.violation("twists_member_not_reciprocal_translate", SITE_TW, inp,
                                          expected="k - twist = integer combination of supercell reciprocal vectors", got={"k": i, "coeffs": m.tolist()})
                             good = False
@@ -309,7 +309,7 @@ def check_twists(ck):
                 # different twists must not be equivalent
                 for (t1, t2) in itertools.combinations(out["twists"], 2):
                     m = (t1 - t2) @ As.T / (2 * np.pi)
-                    if np.allclose(m, np.rint(m), atol=1e-7):
+                    if np.allclose(m, np.rint(m), atol=1e-7, rtol=0):
                         ck.violation("twists_duplicate", SITE_TW, inp, expected="twists pairwise inequivalent", got=[t1.tolist(), t2.tolist()])
                         good = False
                         break
